@@ -66,6 +66,7 @@ def run(repo, rep, tier):
 
     _marker_rule(repo, rep)
     _abnormal_exit_rule(repo, rep)
+    _per_name_rule(repo, rep)
     # names bound inside one expression (lambda parameters, comprehension
     # variables) must not change how any other expression's names are
     # looked up: the rewriter's scopes are copies, closed on every exit
@@ -510,7 +511,21 @@ def _abnormal_exit_rule(repo, rep):
                                          "expr")
                         same = any(L.name_key(first, x[1]["_S"]) == skey
                                    for x in fu)
-                        restored = bool(fb) and same and bool(fg)
+                        # order: clear, then the snapshot, then the globals
+                        # on top (a global defined inside the failed element
+                        # must survive the restore)
+                        pos = {}
+                        for k, st in enumerate(first.tree.body):
+                            t = src(st).replace(" ", "")
+                            if ".clear(econtext)" in t:
+                                pos.setdefault("clear", k)
+                            elif t == "econtext.update(rcontext)":
+                                pos.setdefault("globals", k)
+                            elif t.startswith("econtext.update("):
+                                pos.setdefault("snapshot", k)
+                        ordered = len(pos) == 3 and pos["clear"] < \
+                            pos["snapshot"] < pos["globals"]
+                        restored = bool(fb) and same and bool(fg) and ordered
                     ok = per_node and is_dict and restored
                     detail = "snapshot per node: %s, dict.copy: %s, handler " \
                              "starts with clear/update(snapshot)/update(" \
@@ -524,3 +539,72 @@ def _abnormal_exit_rule(repo, rep):
                           where=L.where(m), detail=detail)
     rep.require_min("R05.8", 1, "swallowing handlers around child content "
                                 "(tal:on-error)")
+
+
+def _per_name_rule(repo, rep):
+    """One define / repeat may bind several names: each needs a backup local
+    of its own (per node AND per name), the same one on both sides; and the
+    identity the backups are named after -- the names object of the node --
+    must be a fresh object per element, so the statement parser may neither
+    cache nor share its results."""
+    keys = {}
+    for q in ("_enter_assignment", "_leave_assignment"):
+        f = repo.func(COMP + q)
+        r = L.emission(repo, f.qualname)
+        v = r.out if getattr(r, "is_gen", False) else r.value
+        loops = [w for w in A.walk(v) if isinstance(w, A.Loop)]
+        ok = False
+        detail = "no loop over the names"
+        for lp in loops:
+            for w in A.walk(lp.body):
+                if isinstance(w, A.Frag) and "BACKUP" in w.slots:
+                    ident = w.slots["BACKUP"]
+                    txt = A.show(ident, limit=8)
+                    okn, why = A.per_node(ident)
+                    per_name = ("each(%s)" % A.show(lp.iter, limit=3)) in txt \
+                        or "each(" in txt
+                    ok = okn and per_name
+                    keys[q] = txt
+                    detail = "%s (per node: %s, per name: %s)" % (
+                        txt, okn, per_name)
+        rep.check(ok, "R05.2", f.qualname, "the backup local embeds the "
+                  "node's identity and the variable's own name: several "
+                  "names bound by one element do not share a backup",
+                  construct="backup-per-name", where=L.where(f),
+                  detail=detail)
+    rep.check(len(set(keys.values())) == 1 and len(keys) == 2, "R05.2",
+              COMP + "_leave_assignment", "save and restore name the backup "
+              "local by the same expression", construct="backup-same-name",
+              detail=str(keys))
+    # freshness of the identity source
+    for q in ("chameleon.tal.parse_defines",):
+        f = repo.func(q)
+        mod = f.module
+        module_names = set(mod.assigns) | set(mod.functions)
+        deco = [src(d) for d in f.node.decorator_list]
+        local_lists = {t.id for n in ast.walk(f.node)
+                       if isinstance(n, ast.Assign)
+                       and isinstance(n.value, (ast.List, ast.ListComp))
+                       for t in n.targets if isinstance(t, ast.Name)}
+        rets = [n for n in ast.walk(f.node) if isinstance(n, ast.Return)
+                and n.value is not None]
+        fresh = bool(rets) and all(
+            isinstance(r_.value, ast.Name) and r_.value.id in local_lists
+            or isinstance(r_.value, (ast.List, ast.ListComp))
+            for r_ in rets)
+        shared = []
+        for n in ast.walk(f.node):
+            if isinstance(n, ast.Subscript) and isinstance(
+                    n.value, ast.Name) and n.value.id in mod.assigns and \
+                    isinstance(mod.assigns[n.value.id][-1],
+                               (ast.Dict, ast.List, ast.Call)):
+                shared.append(src(n))
+            if isinstance(n, (ast.Global, ast.Nonlocal)):
+                shared.append(src(n))
+        rep.check(not deco and fresh and not shared, "R05.2", f.qualname,
+                  "every call builds and returns a new result (no "
+                  "memoisation, no module-level table): the compiler names "
+                  "its backup locals after the identity of each element's "
+                  "own names object", construct="fresh-names-object",
+                  where=L.where(f), detail="decorators %s, shared %s, "
+                  "returns fresh list: %s" % (deco, shared[:3], fresh))
